@@ -1,6 +1,9 @@
 (** Model of the LMTP dialogue of raven's delivery service.
 
-    Go sources mirrored here, statement by statement, bugs included:
+    Go sources mirrored here, statement by statement, AFTER the fixes
+    "read over-size LMTP message data up to the end-of-data marker",
+    "LMTP answers a refused message once per recipient and ends the
+    transaction" and "LMTP accepts RCPT and DATA after MAIL FROM:<>":
     - internal/delivery/lmtp/session.go: Session.Handle (command loop),
       handleCommand, handleLHLO/MAIL/RCPT/DATA/RSET/NOOP/QUIT/VRFY/HELP,
       parseMailFrom, parseRcptTo;
@@ -47,31 +50,40 @@ Definition len (s : str) : Z := Z.of_nat (length s).
 Definition dot_crlf : str := S_ "." ++ crlf.
 Definition dot_lf : str := S_ "." ++ [LF].
 
-Inductive dstep := DEnd | DMore (buf : str) (size : Z) | DTooBig.
+(** loop state of ReadDataCommand: buffer, running size, "tooLarge" *)
+Record dstate := { d_buf : str; d_size : Z; d_big : bool }.
+Definition d0 : dstate := {| d_buf := []; d_size := 0; d_big := false |}.
+
+Inductive dstep := DEnd | DMore (d : dstate).
 
 (** one iteration of the loop, [line] being what ReadString returned *)
-Definition data_line (max : Z) (buf : str) (size : Z) (line : str) : dstep :=
+Definition data_line (max : Z) (d : dstate) (line : str) : dstep :=
   (* if line == ".\r\n" || line == ".\n" { break } *)
   if str_eqb line dot_crlf || str_eqb line dot_lf then DEnd
+  (* if tooLarge { continue }   -- discard, but keep reading up to the marker *)
+  else if d_big d then DMore d
   else
     (* if strings.HasPrefix(line, "..") { line = line[1:] } *)
     let line' := if has_prefix line (S_ "..") then tl line else line in
     (* n, _ := buf.WriteString(line); size += int64(n) *)
-    let size' := size + len line' in
-    (* if size > maxSize { return nil, error }   -- in the middle of the stream *)
-    if size' >? max then DTooBig else DMore (buf ++ line') size'.
+    let size' := d_size d + len line' in
+    (* if size > maxSize { tooLarge = true; buf.Reset() } *)
+    if size' >? max then DMore {| d_buf := []; d_size := size'; d_big := true |}
+    else DMore {| d_buf := d_buf d ++ line'; d_size := size'; d_big := false |}.
 
 Inductive dres := DOk (data : str) | DErrSize | DErrEOF.
 
+(** after the loop: if tooLarge { return nil, ErrMessageTooLarge } *)
+Definition data_end (d : dstate) : dres := if d_big d then DErrSize else DOk (d_buf d).
+
 (** the loop over the lines still in the reader; returns the lines left *)
-Fixpoint read_data_lines (max : Z) (buf : str) (size : Z) (ls : list str) : dres * list str :=
+Fixpoint read_data_lines (max : Z) (d : dstate) (ls : list str) : dres * list str :=
   match ls with
   | [] => (DErrEOF, [])
   | l :: ls' =>
-      match data_line max buf size l with
-      | DEnd => (DOk buf, ls')
-      | DMore b z => read_data_lines max b z ls'
-      | DTooBig => (DErrSize, ls')
+      match data_line max d l with
+      | DEnd => (data_end d, ls')
+      | DMore d' => read_data_lines max d' ls'
       end
   end.
 
@@ -79,7 +91,7 @@ Fixpoint read_data_lines (max : Z) (buf : str) (size : Z) (ls : list str) : dres
     reader.  At end of input ReadString has consumed the unterminated tail. *)
 Definition read_data_cmd (s : str) (max : Z) : dres * str :=
   let '(ls, t) := split_lines s in
-  match read_data_lines max [] 0 ls with
+  match read_data_lines max d0 ls with
   | (DErrEOF, _) => (DErrEOF, [])
   | (r, rest) => (r, concat rest ++ t)
   end.
@@ -88,22 +100,24 @@ Definition read_data_cmd (s : str) (max : Z) : dres * str :=
 
 Record cfg := { max_size : Z; max_rcpts : Z }.
 
-Record st := { helo : str; mail_from : str; rcpts : list str }.
-Definition st0 : st := {| helo := []; mail_from := []; rcpts := [] |}.
+Record st := { helo : str; mail_from : str; mail_seen : bool; rcpts : list str }.
+Definition st0 : st := {| helo := []; mail_from := []; mail_seen := false; rcpts := [] |}.
 
-Inductive mode := MCmd | MData (buf : str) (size : Z).
+Inductive mode := MCmd | MData (d : dstate).
 
-Inductive tag := TLhlo | TMail | TRcpt | TData | TDataErrSize | TDataErrMsg | TDataErrEof
+Inductive tag := TLhlo | TMail | TRcpt | TData | TDataErrEof
                | TRset | TNoop | TQuit | TVrfy | THelp | TUnknown.
 
 (** what the server writes.  [Reply t code arg]: one reply (the five-line LHLO
     answer counts as one) caused by a command of kind [t]; [arg] is the LHLO
     domain / accepted sender / accepted recipient, else empty.
     [Deliver r d ok]: the per-recipient final reply after the data terminator,
-    250 if [ok] else 550, for recipient [r], the message octets being [d]. *)
+    250 if [ok] else 550, for recipient [r], the message octets being [d].
+    [Refuse r code]: the per-recipient reply of rejectMessage (552 / 554). *)
 Inductive ev :=
 | Reply (t : tag) (code : N) (arg : str)
-| Deliver (rcpt data : str) (ok : bool).
+| Deliver (rcpt data : str) (ok : bool)
+| Refuse (rcpt : str) (code : N).
 
 (** strings.SplitN(line, " ", 2) *)
 Fixpoint cut_space (s : str) : str * str :=
@@ -153,7 +167,7 @@ Definition parse_rcpt_to (args : str) : option str :=
 
 Inductive next := NCmd | NData | NQuit.
 
-Definition reset (s : st) : st := {| helo := helo s; mail_from := []; rcpts := [] |}.
+Definition reset (s : st) : st := {| helo := helo s; mail_from := []; mail_seen := false; rcpts := [] |}.
 
 Definition cmd_is (cmd : str) (name : string) : bool := str_eqb cmd (S_ name).
 
@@ -161,24 +175,24 @@ Definition cmd_is (cmd : str) (name : string) : bool := str_eqb cmd (S_ name).
 Definition handle (c : cfg) (s : st) (cmd args : str) : st * list ev * next :=
   if cmd_is cmd "LHLO" then
     if is_nil args then (s, [Reply TLhlo 501 []], NCmd)
-    else ({| helo := args; mail_from := mail_from s; rcpts := rcpts s |}, [Reply TLhlo 250 args], NCmd)
+    else ({| helo := args; mail_from := mail_from s; mail_seen := mail_seen s; rcpts := rcpts s |}, [Reply TLhlo 250 args], NCmd)
   else if cmd_is cmd "MAIL" then
     if is_nil (helo s) then (s, [Reply TMail 503 []], NCmd)
-    else if negb (is_nil (mail_from s)) then (s, [Reply TMail 503 []], NCmd)
+    else if mail_seen s then (s, [Reply TMail 503 []], NCmd)
     else match parse_mail_from args with
          | None => (s, [Reply TMail 501 []], NCmd)
-         | Some f => ({| helo := helo s; mail_from := f; rcpts := rcpts s |}, [Reply TMail 250 f], NCmd)
+         | Some f => ({| helo := helo s; mail_from := f; mail_seen := true; rcpts := rcpts s |}, [Reply TMail 250 f], NCmd)
          end
   else if cmd_is cmd "RCPT" then
-    if is_nil (mail_from s) then (s, [Reply TRcpt 503 []], NCmd)
+    if negb (mail_seen s) then (s, [Reply TRcpt 503 []], NCmd)
     else if Z.of_nat (length (rcpts s)) >=? max_rcpts c then (s, [Reply TRcpt 452 []], NCmd)
     else match parse_rcpt_to args with
          | None => (s, [Reply TRcpt 501 []], NCmd)
-         | Some t => ({| helo := helo s; mail_from := mail_from s; rcpts := rcpts s ++ [t] |},
+         | Some t => ({| helo := helo s; mail_from := mail_from s; mail_seen := mail_seen s; rcpts := rcpts s ++ [t] |},
                       [Reply TRcpt 250 t], NCmd)
          end
   else if cmd_is cmd "DATA" then
-    if is_nil (mail_from s) then (s, [Reply TData 503 []], NCmd)
+    if negb (mail_seen s) then (s, [Reply TData 503 []], NCmd)
     else if is_nil_l (rcpts s) then (s, [Reply TData 503 []], NCmd)
     else (s, [Reply TData 354 []], NData)
   else if cmd_is cmd "RSET" then (reset s, [Reply TRset 250 []], NCmd)
@@ -192,12 +206,19 @@ Section Oracles.
   Variable accepts : str -> bool.
   Variable delivers : str -> str -> bool.
 
-  (** handleDATA after ReadDataCommand returned [data] without error *)
-  Definition finish_data (s : st) (data : str) : st * list ev :=
-    if accepts data
-    then (reset s, map (fun r => Deliver r data (delivers r data)) (rcpts s))
-    else (* one 554, "return" before the reset at the end of handleDATA *)
-         (s, [Reply TDataErrMsg 554 []]).
+  (** rejectMessage: one reply per recipient, then the reset *)
+  Definition reject (s : st) (code : N) : st * list ev :=
+    (reset s, map (fun r => Refuse r code) (rcpts s)).
+
+  (** handleDATA after ReadDataCommand returned at the end-of-data marker *)
+  Definition finish_data (s : st) (d : dstate) : st * list ev :=
+    match data_end d with
+    | DOk data =>
+        if accepts data
+        then (reset s, map (fun r => Deliver r data (delivers r data)) (rcpts s))
+        else reject s 554
+    | _ => reject s 552   (* errors.Is(err, parser.ErrMessageTooLarge) *)
+    end.
 
   (** one line of the client's stream; the boolean is "Handle returned" *)
   Definition step (c : cfg) (s : st) (m : mode) (line : str) : st * mode * list ev * bool :=
@@ -209,16 +230,14 @@ Section Oracles.
             let '(s', evs, nx) := handle c s cmd args in
             match nx with
             | NCmd => (s', MCmd, evs, false)
-            | NData => (s', MData [] 0, evs, false)
+            | NData => (s', MData d0, evs, false)
             | NQuit => (s', MCmd, evs, true)
             end
         end
-    | MData buf size =>
-        match data_line (max_size c) buf size line with
-        | DEnd => let '(s', evs) := finish_data s buf in (s', MCmd, evs, false)
-        | DMore b z => (s, MData b z, [], false)
-        | DTooBig => (* ReadDataCommand returned an error: one 554, back to the command loop *)
-                     (s, MCmd, [Reply TDataErrSize 554 []], false)
+    | MData d =>
+        match data_line (max_size c) d line with
+        | DEnd => let '(s', evs) := finish_data s d in (s', MCmd, evs, false)
+        | DMore d' => (s, MData d', [], false)
         end
     end.
 
@@ -229,7 +248,7 @@ Section Oracles.
     match ls with
     | [] => (* EOF.  Inside DATA ReadDataCommand fails and handleDATA still
                writes one 554 before the command loop sees the EOF itself *)
-            (match m with MData _ _ => [Reply TDataErrEof 554 []] | MCmd => [] end, None)
+            (match m with MData _ => [Reply TDataErrEof 554 []] | MCmd => [] end, None)
     | l :: ls' =>
         let '(s', m', evs, quit) := step c s m l in
         if quit then (evs, Some ls')
